@@ -54,10 +54,12 @@ CellGrid = Sequence[Sequence]
 def make_metadata_block(cells: CellGrid, origin: Optional[str] = None, **_) -> MetadataBlock:
     mb = MetadataBlock(origin)
     for row in cells:
-        if len(row) > 1 and row[0] is not None:
+        if len(row) > 1 and isinstance(row[0], str):
             key_field = row[0].strip()
             if len(key_field) > 0 and key_field[-1] == ":":
-                mb[key_field[:-1]] = row[1].strip()
+                value = row[1]
+                # native (e.g. Excel) cells: empty -> "", anything else -> its text
+                mb[key_field[:-1]] = "" if value is None else str(value).strip()
     return mb
 
 
